@@ -35,7 +35,7 @@ fn main() {
     };
     match args[1].as_str() {
         "counts" => {
-            for name in ["K", "K0", "Q", "CL", "G", "GC", "CI", "AN", "U", "NEST", "LP", "ALT", "CAPQ", "BR"] {
+            for name in ["K", "K0", "Q", "CL", "G", "GC", "CI", "AN", "U", "NEST", "LP", "ALT", "CAPQ", "BR", "FX", "ALTC"] {
                 let sc = gen::scope(name);
                 let v: Vec<String> = (1..=7).map(|n| sc.count(n).to_string()).collect();
                 println!("{:3} {}", name, v.join(" "));
